@@ -22,7 +22,7 @@ def main():
             res = []
             for prop in props:
                 p = subprocess.run([os.path.join(VERIF, 'check'), prop], capture_output=True, text=True,
-                                   env=dict(os.environ, VERIF_REPO=scratch, VERIF_NO_EVIDENCE='1'))
+                                   env=dict(os.environ, VERIF_REPO=scratch, VERIF_NO_EVIDENCE='1', VERIF_REPLAY_DIR=os.path.join(scratch, '.verif-replays')))
                 viol = [l.split('replay=')[1].split()[0].split('/')[-1].replace('.json', '') for l in p.stdout.split('\n') if l.startswith('VIOLATION')]
                 res.append((prop, p.returncode, viol, [l for l in p.stdout.split('\n') if l.startswith('UNDECIDED')][:2]))
             st = 'DETECTED' if any(rc == 1 for _, rc, _, _ in res) else ('UNDECIDED' if any(rc == 2 for _, rc, _, _ in res) else 'MISSED')
